@@ -491,9 +491,18 @@ func execOp(op string) (res string) {
 	if !ok {
 		return "BADOP unknown " + toks[0]
 	}
-	out, err := f(&tokReader{t: toks[1:]})
+	r := &tokReader{t: toks[1:]}
+	out, err := f(r)
 	if err != nil {
 		return "BADOP " + strings.ReplaceAll(err.Error(), "\n", " ")
+	}
+	// decoders / inspectors must leave their input buffers (and the spare capacity behind them) untouched
+	if noWriteOps[toks[0]] {
+		for _, g := range r.inputs {
+			if g.written() {
+				return out + " WROTE-INPUT"
+			}
+		}
 	}
 	return out
 }
